@@ -5,7 +5,7 @@
 From Coq Require Import List QArith Reals Qreals Lra.
 From PV Require Import Base.IPS Model.Dict Model.Terms Model.Sent Model.Cvxpy Model.Cert
      Spec.GramSem Spec.KKT Proofs.C01Layout Proofs.C01Identity Proofs.C01Refuted Proofs.C01Examples
-     Proofs.PSDLemmas.
+     Proofs.PSDLemmas Proofs.C01Tolerance.
 Import ListNotations.
 Local Open Scope R_scope.
 
@@ -126,6 +126,59 @@ Theorem C01_asym_observed_value :
   /\ Q2R (new_value (w_duals (5 # 9) (9 # 20))) = 9 / 10.
 Proof. exact asym_observed_value. Qed.
 
+(** "ALL UP TO SOLVER TOLERANCE".  (1) With NO assumption on the solver: for every dual vector of the right
+    shapes, what check_feasibility computes satisfies, for all symmetric G and all F,
+    objective = fd + sum multiplier x constraint - <residual, G>, where fd is the pruned symmetrised
+    dictionary whose constant is the returned value and whose other entries are the "remaining terms". *)
+Theorem C01_reconstruction_unconditional :
+  forall (obj : edict) (tracked : sent) (ids : list nat) (temp : list dval),
+    wf_edict obj -> wf_sent tracked ->
+    NoDup ids -> length ids = length tracked ->
+    Forall2 dual_fits (emit tracked) temp ->
+    let '(a, res, fd, t) := certificate obj tracked ids temp in
+    (forall G F, symG G ->
+       evalGF G F obj = evalGF G F fd + multiplier_sum G F a - mdot (res_matrix res) G)
+    /\ t = constant_of fd.
+Proof. exact reconstruction_unconditional. Qed.
+
+Theorem C01_constant_split :
+  forall G F (d : edict), NoDup (keys d) ->
+    evalGF G F d = Q2R (constant_of d) + evalGF G F (remaining d).
+Proof. exact constant_split. Qed.
+
+(** (2) If the multipliers are dual feasible only up to eps (inequality multipliers >= -eps, residual and LMI
+    dual matrices entry-wise within eps of a sum of rank-one matrices), then at every feasible point the
+    objective is at most fd(G,F) + eps x (l1 size of the constrained quantities and of G): the returned
+    constant dominates the objective up to the remaining terms and eps.  eps = 0 gives C01_weak_duality. *)
+Theorem C01_weak_duality_tolerance :
+  forall (eps : R) (np : nat) (obj fd : edict) (tracked : sent) (duals : list dval)
+         (entries : list (option (list (list Q)))) (res : list (list Q)),
+    0 <= eps ->
+    length duals = length tracked -> length entries = length tracked ->
+    (forall G F, symG G ->
+       evalGF G F obj = evalGF G F fd + multiplier_sum G F (combine (combine tracked duals) entries) - mdot res G) ->
+    dual_feasible_tol eps (combine (combine tracked duals) entries) ->
+    near_rank1sum eps res np ->
+    forall G F, feasible np tracked G F ->
+      evalGF G F obj <= evalGF G F fd + eps * (slack G F tracked + abs_sum np G).
+Proof. exact weak_duality_tol. Qed.
+
+Theorem C01_exact_is_tolerance_zero :
+  forall a, dual_feasible a -> dual_feasible_tol 0 a.
+Proof. exact dual_feasible_tol0. Qed.
+
+(** Non-vacuity: an inexact dual for the model of C01_example (a multiplier off by 1/1000, an INDEFINITE LMI dual
+    matrix within 1/1000 of a rank-one matrix): shapes fit, a remaining term (F2 - F0)/1000 is left, the returned
+    constant is 2403/2000, and the tolerance hypotheses hold with eps = 1/1000. *)
+Example C01_tolerance_example :
+  Forall2 dual_fits (emit s_sent) t_duals
+  /\ (let '(_, _, fd, t) := certificate w_obj s_sent w_ids t_duals in
+      map (fun kv => (fst kv, Qred (snd kv))) (remaining fd) = [(KF 2, (1 # 1000)%Q); (KF 0, (-1 # 1000)%Q)]
+      /\ Qred t = (2403 # 2000)%Q)
+  /\ (let '(a, res) := exposed s_sent w_ids t_duals in
+      dual_feasible_tol (1 / 1000) a /\ near_rank1sum (1 / 1000) (res_matrix res) 1).
+Proof. split; [exact t_fits|]. split; [exact t_remaining|exact t_dual_feasible_tol]. Qed.
+
 (** Non-vacuity, symmetric LMI: a model with a symmetric 2x2 LMI, a rational dual satisfying the solver assumption
     and dual feasibility, a feasible point; the reconstruction returns the constant 481/400 and the
     feasible objective value 9/10 is below it. *)
@@ -182,3 +235,7 @@ Print Assumptions C01_psd_pairing.
 Print Assumptions C01_gram_is_psd.
 Print Assumptions C01_old_formula_refuted.
 Print Assumptions C01_asym_observed_value.
+Print Assumptions C01_reconstruction_unconditional.
+Print Assumptions C01_constant_split.
+Print Assumptions C01_weak_duality_tolerance.
+Print Assumptions C01_exact_is_tolerance_zero.
